@@ -27,6 +27,22 @@ ABSTRACT = f"{PKG}.abstract.OptimizationAbstract"
 DECLARED_INPUTS = {"_config": "configuration supplied by the caller (C09/C18)", "_debug": "constructor flag, never written"}
 
 
+MEMO_DECORATORS = ("cached_property", "lru_cache", "cache")
+
+
+def memoised_methods(prog: Program) -> list:
+    """Methods of optimizer classes carrying a memoising decorator: a hidden per-instance (or per-class) store that no
+    per-run hook re-initialises."""
+    out = []
+    for ci in [prog.cls(ABSTRACT)] + prog.subclasses(ABSTRACT):
+        for m in ci.methods.values():
+            for d in m.node.decorator_list:
+                txt = norm(d)
+                if any(txt == k or txt.endswith("." + k) or txt.startswith(k + "(") or ("." + k + "(") in txt for k in MEMO_DECORATORS):
+                    out.append((ci, m, txt))
+    return out
+
+
 def owner_of(prog: Program, ctx: ClassInfo, field: str) -> str:
     """Most-base class of ctx's MRO that stores the field anywhere (mangled names carry their class)."""
     for c in reversed(prog.mro(ctx)):
@@ -84,6 +100,12 @@ def run(prog: Program, res: Result) -> None:
     res.floor("fields-examined", 800)
     res.floor("functions-inlined", 800)
 
+    # memoised methods: values computed in one run (from the configuration, the task, the population) survive into the next
+    for (ci, m, txt) in memoised_methods(prog):
+        res.ob(False)
+        res.add(Finding(P, "C08.R1-leak", f"{ci.name}.{m.name}::@{txt}", m.loc(),
+                        f"{ci.name}.{m.name} is memoised with `@{txt}`: its first value is kept on the instance for every later "
+                        f"optimize() call (no per-run hook clears it)"))
     # R2 globals / class attributes
     class_names = {c.name for c in prog.classes.values()}
     for fi in prog.all_functions():
